@@ -201,6 +201,10 @@ def merge_triple(gen, cls=None, minor=None, plain_eol=False):
             base = copy.deepcopy(base)
             loc, r1 = mutate(base, gen, steps=r.choice([1, 2, 3]))
             rem, r2 = mutate(base, gen, steps=r.choice([1, 2, 3]))
+            if plain_eol:
+                for nb in (base, loc, rem):
+                    for c in nb["cells"]:
+                        c["source"] = _plain(c["source"])
             return cls, base, loc, rem, {"fixture": name, "local": r1, "remote": r2}
         cls = "random"
     base = gen.notebook(minor, ncells=r.choice([1, 2, 3, 4, 5, 6, 8]))
